@@ -67,3 +67,12 @@ package genesis
 //@   at-call Set assert[opens-with-the-entry's-amount] !has(fusedAmount, entry.Beneficiary) && arg1 == entry.Amount
 //@   loop 1
 //@     invariant config == cfg.PlasmaConfig && config != nil && (forall k int :: 0 <= k && k < len(config.Fusions) ==> config.Fusions[k] != nil && config.Fusions[k].Amount != nil)
+
+// A genesis read from a file is built only from a configuration that the consistency checks have ALREADY accepted, as it was
+// read (NewGenesis is not read-only on the configuration: ABI packing reduces amounts modulo 2^256 in place, so checking after
+// building would check something else).
+//@ func NewGenesis(config)
+//@   trusted
+//@ func ReadGenesisConfigFromFile(genesisFile)
+//@   at-call NewGenesis assert[built-only-after-the-checks-accepted-the-configuration-as-read] calls("CheckGenesis") == 1 && arg0 == config
+//@   at-call CheckGenesis assert[checked-before-anything-is-built-from-it] calls("NewGenesis") == 0 && arg0 == config
